@@ -117,10 +117,12 @@ def run(tier):
                 if not q['ok']:
                     stat['ops_with_a_failing_state'] += 1
                     diffs.append({'set': label, 'impl': 'model', 'instance': L.ins_json(ins), 'replay_input': L.replay_text(ins), 'op_index': k,
-                                  'detail': 'VpscKktB.stationarityb is false on a state the extracted model visits while executing this op: the '
+                                  'detail': 'VpscKktB.kkt_stateb is false on a state the extracted model visits while executing this op: the '
                                             'multipliers recomputed by reset_active_lm + compute_dfdv do not satisfy the stationarity equation at a '
                                             'variable whose block statistics are up to date (contradicts C02_relm_stationary)'})
                 mres = ((d or {}).get('m') or {}).get(k) or {}
+                if k < len(ins['ops']) and ins['ops'][k][0] == 'S' and '1' not in mres.get('U', '1'):
+                    stat['solve_returns_unflagged'] = stat.get('solve_returns_unflagged', 0) + 1
                 if q['fresh'] == len(ins['vs']) and k < len(ins['ops']) and ins['ops'][k][0] == 'S' and '1' not in mres.get('U', '1'):
                     # returns of solve() with nothing flagged
                     stat['returns_with_all_blocks_fresh'] += 1
@@ -205,8 +207,8 @@ def run(tier):
                     'correspondence_static_solver': dict(corr_static, what='extracted Vpsc/StaticModel.v vs vpsc::Solver::solve() on every static instance (partition, active flags, '
                                                         'thrown constraint exactly; positions to 1e-9*scale); tie = differed while the model compared keys closer than 1e-7'),
                     'certificates': dict(stats, sources=srcs, legend='R = multipliers from the real solver\'s active forest, M = from the model\'s, E = enumeration'),
-                    'model_stationarity': dict(stat, what='VpscKktB.stationarityb evaluated by the extracted model on every state it visits during every '
-                                               'solve/satisfy op (n <= 40): findMinLM is re-run on the block of every variable and the stationarity residual of '
+                    'model_stationarity': dict(stat, what='VpscKktB.kkt_stateb (= lm_lenb && stationarityb) evaluated by the extracted model on every state it visits during every '
+                                               'solve/satisfy op (n <= 40): the lm vector has one entry per constraint, findMinLM is re-run on the block of every variable and the stationarity residual of '
                                                'KKT.v must be exactly 0 at every variable whose block statistics are the sums over the block (always, except AD '
                                                'between a change of a desired position and the next moveBlocks); gap bound / min multiplier = KKT.kkt_gap and '
                                                'the smallest recomputed multiplier of an active inequality on the states the model returns from solve() with nothing flagged; a failure is '
@@ -254,10 +256,18 @@ META = {
                 'current loop it is decided per run by the certificate (C02_solve_certified_partial), not proved for all runs. Proved for all op histories of '
                 'the model (second round): the active constraints of every block form a spanning tree, are tight, block statistics are the sums over the block '
                 '(C02_active_forest_reachable), and the positions solve() returns are feasible for the unflagged constraints (C02_solve_feasible_history); '
-                'both also for histories that change Variable::weight between solves (C02_active_forest_weight_history, C02_solve_feasible_weight_history).',
+                'both also for histories that change Variable::weight between solves (C02_active_forest_weight_history, C02_solve_feasible_weight_history). '
+                'Third round (Vpsc/VpscStationary.v): the stretch lemma - Block::compute_dfdv over the spanning tree of a block leaves the stationarity residual 0 '
+                'at every non-root variable for any block position (C02_compute_dfdv_stationary), findMinLM on a block with up-to-date statistics at every '
+                'variable of it (C02_find_min_lm_stationary), re-running it on every block at every variable (C02_relm_stationary); hence the explicit duality '
+                'gap from the recomputed multipliers alone (C02_relm_gap_bound, C02_relm_optimal) and, under the exit test of splitBlocks (no multiplier below '
+                '-tau), obj - optimum <= sum_i (scl_i*tau*deg_i)^2/(4 w_i) (C02_split_blocks_exit_kkt); for every history C02_solve_near_optimal_history_partial. '
+                'The boolean form (VpscKktB.kkt_stateb) is evaluated by the extracted model on every state it visits (evidence key model_stationarity).',
         'design_ref': 'DESIGN.md 5.2'},
     'level_note': 'Trusted: Coq kernel; extraction + OCaml driver (its optimum-proposing helpers are unverified but every proposal passes the proved kkt_ok); C++ harness; '
-                  'exact-rational model of binary64. Not proved: that solve() reaches a KKT point (tree induction over compute_dfdv not done); termination; '
+                  'exact-rational model of binary64. Not proved: that solve() exits with every recomputed multiplier >= -1e-4 (its last satisfy() may merge after the '
+                  'splitBlocks test, and it gives up after 100 passes), and two state facts C02_solve_near_optimal_history_partial takes as hypotheses (block statistics '
+                  'AB/AD are the sums over the block after satisfy(); the lm vector keeps its length) - both evaluated on every visited model state; termination; '
                   'variable-order independence is checked on permuted twins and follows from uniqueness only informally (constraint-order independence is proved).',
     'technique': 'Coq proof of a certificate checker (certifying-algorithm validation of every real solve() result) + refutation witness + extracted-model correspondence',
 }
